@@ -106,7 +106,7 @@ func getReturns(last *token, p *parser) *token {
 			p.Advance(",")
 		}
 		p.Advance(")")
-	} else if p.Token.Symbol != ")" && p.Token.Symbol != "," && p.Token.Symbol != "{" && p.Token.Symbol != "}" && p.Token.Symbol != ";" && p.Token.Pos.Line == last.Pos.Line {
+	} else if p.Token.Symbol != ")" && p.Token.Symbol != "," && p.Token.Symbol != "{" && p.Token.Symbol != "}" && p.Token.Symbol != ";" && p.Token.Symbol != "(eof)" && p.Token.Pos.Line == last.Pos.Line {
 		returns.Append(getType(p))
 	}
 	return returns
@@ -421,7 +421,7 @@ func getDecl(p *parser, kind string) *token {
 		p.Advance(",")
 	}
 	decl.Append(left)
-	if p.Token.Symbol == ";" || p.Token.Symbol == ")" || p.Token.Pos.Line != left.Pos.Line {
+	if p.Token.Symbol == ";" || p.Token.Symbol == ")" || p.Token.Symbol == "(eof)" || p.Token.Pos.Line != left.Pos.Line {
 		return decl
 	}
 	if p.Token.Symbol == "=" {
